@@ -59,9 +59,26 @@ def check_one(desc, acc):
     size = len(desc["edges"]) + len(desc["nodes"])
     if kind == "T":
         return check_temporal(desc, acc, base, size)
-    N, W = desc["nodes"], desc["weighted"]
-    for detour in (False, True):
+    N0, W = desc["nodes"], desc["weighted"]
+    variants = [(d, None) for d in (False, True, 2)]
+    if N0:
+        # second call on the same object after a node removal (cached mappings / stale tables): matrices are computed on the
+        # full object first (detour build), then the largest label is removed and everything is computed again
+        variants.append((True, max(N0)))
+        variants.append((False, min(N0)))
+    for detour, drop in variants:
         h = C.build(desc, detour=detour)
+        N = N0
+        if drop is not None:
+            try:
+                L.binary_incidence_matrix(h, return_mapping=True)
+                L.adjacency_matrix(h, return_mapping=True)
+                h.get_mapping()
+            except Exception:
+                pass
+            h.remove_node(drop)
+            N = tuple(n for n in N0 if n != drop)
+            detour = "%s+remove_node(%r)" % (detour, drop)
         w = dict(base, detour=detour)
         edges = [tuple(sorted(e)) for e in h.get_edges()]
         wts = {tuple(sorted(e)): h.get_weight(e) for e in h.get_edges()}
@@ -113,7 +130,7 @@ def check_one(desc, acc):
             acc.nontrivial.add(hash((repr(edges), W)))
         # --- per-order variants --------------------------------------------------------------------------
         maxo = max((len(e) - 1 for e in edges), default=0)
-        for d in (1, 2, 3):
+        for d in (0, 1, 2, 3):
             ed = [e for e in edges if len(e) - 1 == d]
             for keep in (False, True):
                 nodes_d = list(N) if keep else sorted({n for e in ed for n in e}, key=repr)
@@ -141,7 +158,7 @@ def check_one(desc, acc):
                 want[(a, b)] = -v
             for n in N:
                 k = sum(1 for e in ed if n in e)
-                if k:
+                if k and d:
                     want[(n, n)] = float(d * k)
             r = attempt("laplacian_matrix_by_order", lambda: L.laplacian_matrix_by_order(h, d))
             if r is not None:
@@ -178,7 +195,7 @@ def check_one(desc, acc):
 def check_temporal(desc, acc, base, size):
     import hypergraphx.linalg as L
 
-    for detour in (False, True):
+    for detour in (False, True, 2):
         h = C.build(desc, detour=detour)
         w = dict(base, detour=detour)
         acc.evaluations += 1
